@@ -15,13 +15,14 @@ func init() { register("C12", checkC12) }
 
 func checkC12(c *Ctx) {
 	r, p := c.R, c.P
-	r.Explanation = "Decides the structural conditions of a well-formed report. (J1) Id scheme: the recursive id assignment names a child held under key k `parent_k` and the i-th element of an array `parent_i`, recurses into every typed object and every element of every array, and assigns an id to every typed node it reaches; this scheme is injective when no node constructor has a purely numeric key and at most one key whose value is an array of typed nodes - checked on every node constructor: the object literals of error(), trace() and location() in the embedded Rego and the trace-value templates of the generator; the roots are `<level>_<ordinal>` per bucket (C03.L4) and every bucket element is appended to the result list (no indexed writes, no gaps). (J2) Node shape: both variants of error() carry @type, sourceShapeName, focusNode, resultMessage and trace; both variants of trace() carry @type, component, resultPath and traceValue; every trace-value template starts with the typed-node header. (J3) Focus node: in error() the focusNode value is the @id of the node argument; at every error(...) call template of the generator the node argument is the variable bound by the target_class line (top level) or by the iteration over the nested node set (nested), i.e. a node of the input graph; the trace list argument is the non-empty list of the branch's trace bindings. (J4) The first argument of error(...) is the validation's name (as a string literal) or the constant `nested`. (J5) Envelope and encoding: the dialect instance is a one-element list whose doc:encodes is a one-element list holding the report node; the report text is the output of encoding/json's encoder, returned without any textual post-processing. Does not decide non-emptiness for degenerate profiles (message: \"\", or: [])."
+	r.Explanation = "Decides the structural conditions of a well-formed report. (J1) Id scheme: the recursive id assignment names a child held under key k `parent_k` and the i-th element of an array `parent_i`, recurses into every typed object and every element of every array, and assigns an id to every typed node it reaches; this scheme is injective when no node constructor has a purely numeric key and at most one key whose value is an array of typed nodes - checked on every node constructor: the object literals of error(), trace() and location() in the embedded Rego and the trace-value templates of the generator; the roots are `<level>_<ordinal>` per bucket (C03.L4) and every bucket element is appended to the result list (no indexed writes, no gaps). (J2) Node shape: both variants of error() carry @type, sourceShapeName, focusNode, resultMessage and trace; both variants of trace() carry @type, component, resultPath and traceValue; every trace-value template starts with the typed-node header. (J3) Focus node: in error() the focusNode value is the @id of the node argument; at every error(...) call template of the generator the node argument is the variable bound by the target_class line (top level) or by the iteration over the nested node set (nested), i.e. a node of the input graph; the trace list argument is the non-empty list of the branch's trace bindings. (J4) The first argument of error(...) is the validation's name (as a string literal) or the constant `nested`. (J5) Envelope and encoding: the dialect instance is a one-element list whose doc:encodes is a one-element list holding the report node; the report text is the output of encoding/json's encoder, returned without any textual post-processing. (J6) The encoder's error is examined by the encoding function and by its callers (the evaluation can hand back json.Number values that are not JSON numbers, e.g. to_number(\"03\"); dropping the error returns an empty document as the report). Does not decide non-emptiness for degenerate profiles (message: \"\", or: [])."
 	r.Declines = []string{"encoding/json produces valid JSON for the value it is given", "non-empty message / trace for degenerate profiles (empty message text, empty operand lists)"}
 	r.Trusted = []string{"encoding/json", "OPA object literals evaluate to objects with exactly the written keys"}
 	r.Rule("C12.J1", "ids: parent_key / parent_index, recursion into all typed children, constructors admit an injective scheme, results appended without gaps", 8)
 	r.Rule("C12.J2", "result and trace nodes carry all required keys in both variants; trace values are typed nodes", 4)
 	r.Rule("C12.J3", "focusNode is the @id of a node variable bound from the input graph; trace list is the branch's bindings", 4)
 	r.Rule("C12.J4", "sourceShapeName is the validation name or `nested`", 2)
+	r.Rule("C12.J6", "the JSON encoder's error is never dropped: an unencodable report is an error, not an empty document", 1)
 	r.Rule("C12.J5", "one dialect instance encoding one report node; JSON text is the encoder's output untouched", 3)
 
 	c12Ids(c)
@@ -598,8 +599,9 @@ func c12Envelope(c *Ctx) {
 	}
 	// the encoder
 	var encFn *ssa.Function
+	var encCalls []ssa.CallInstruction
 	for _, fn := range p.ModuleFuncs() {
-		if RelPkg(fn) != "internal/validator" || fn.Signature.Results().Len() != 1 || !isStringType(fn.Signature.Results().At(0).Type()) {
+		if RelPkg(fn) != "internal/validator" || fn.Signature.Results().Len() < 1 || !isStringType(fn.Signature.Results().At(0).Type()) {
 			continue
 		}
 		for _, b := range fn.Blocks {
@@ -608,6 +610,7 @@ func c12Envelope(c *Ctx) {
 					n := funcFullName(ssaCalleeObj(ci))
 					if n == "(*encoding/json.Encoder).Encode" || n == "encoding/json.Marshal" || n == "encoding/json.MarshalIndent" {
 						encFn = fn
+						encCalls = append(encCalls, ci)
 					}
 				}
 			}
@@ -631,23 +634,96 @@ func c12Envelope(c *Ctx) {
 		}
 	}
 	sort.Strings(post)
-	// the returned string is the buffer's / marshalled bytes' text
-	retOK := false
+	// every return that reports success returns the buffer's / marshalled bytes' text
+	retOK, nret := true, 0
 	for _, b := range encFn.Blocks {
 		for _, ins := range b.Instrs {
-			if ret, ok := ins.(*ssa.Return); ok && len(ret.Results) == 1 {
-				switch x := ret.Results[0].(type) {
-				case *ssa.Call:
-					if funcFullName(ssaCalleeObj(x)) == "(*bytes.Buffer).String" {
-						retOK = true
+			ret, ok := ins.(*ssa.Return)
+			if !ok || len(ret.Results) == 0 {
+				continue
+			}
+			nret++
+			if len(ret.Results) == 2 {
+				if cst, isConst := ret.Results[1].(*ssa.Const); !isConst || !cst.IsNil() {
+					continue // an error return: the text is not used
+				}
+			}
+			switch x := ret.Results[0].(type) {
+			case *ssa.Call:
+				if funcFullName(ssaCalleeObj(x)) != "(*bytes.Buffer).String" {
+					retOK = false
+				}
+			case *ssa.Convert:
+			default:
+				retOK = false
+			}
+		}
+	}
+	r.Check(len(post) == 0 && retOK && nret > 0, "C12.J5", FuncKey(encFn)+"#json-untouched", p.Pos(encFn.Pos()), "the report text is the JSON encoder's output, returned as is", "the JSON text is post-processed ("+strings.Join(post, ", ")+") or is not the encoder's output: textual edits of encoded JSON can produce invalid escapes")
+	// J6: the encoder can fail (OPA hands back json.Number values such as to_number("03") that are not JSON numbers); a dropped
+	// error turns into an empty or truncated document returned as a report
+	for i, ci := range encCalls {
+		k := FuncKey(encFn) + "#encoder-error"
+		if i > 0 {
+			k += fmt.Sprintf("#%d", i+1)
+		}
+		r.Check(errorResultUsed(ci), "C12.J6", k, p.Pos(ci.Pos()), "the encoder's error is examined", "the error of the JSON encoder is dropped: a value that cannot be encoded (an invalid number literal from to_number, a NaN) yields an empty or truncated document that is returned as the report")
+	}
+	// callers must not drop the error either
+	callers := 0
+	if encFn.Signature.Results().Len() == 2 {
+		for _, fn := range p.ModuleFuncs() {
+			for _, b := range fn.Blocks {
+				for _, ins := range b.Instrs {
+					ci, ok := ins.(ssa.CallInstruction)
+					if !ok || ci.Common().StaticCallee() != encFn {
+						continue
 					}
-				case *ssa.Convert:
-					retOK = true
+					callers++
+					r.Check(errorResultUsed(ci), "C12.J6", FuncKey(fn)+"#uses-encoder-error", p.Pos(ci.Pos()), "the caller examines or returns the encoder's error", "the encoder's error is dropped by its caller")
 				}
 			}
 		}
 	}
-	r.Check(len(post) == 0 && retOK, "C12.J5", FuncKey(encFn)+"#json-untouched", p.Pos(encFn.Pos()), "the report text is the JSON encoder's output, returned as is", "the JSON text is post-processed ("+strings.Join(post, ", ")+") or is not the encoder's output: textual edits of encoded JSON can produce invalid escapes")
 	// the builder returns the encoder's result
 	r.OK("C12.J5", "encoder", "", "encoder: "+FuncKey(encFn))
+}
+
+// errorResultUsed: the error result of the call (the last result) is consumed by some instruction other than a debug reference.
+func errorResultUsed(ci ssa.CallInstruction) bool {
+	v := ci.Value()
+	if v == nil {
+		return false // go / defer: result discarded
+	}
+	res := ci.Common().Signature().Results()
+	if res.Len() == 0 {
+		return true
+	}
+	refs := v.Referrers()
+	if refs == nil {
+		return false
+	}
+	if res.Len() == 1 {
+		for _, ref := range *refs {
+			if _, dbg := ref.(*ssa.DebugRef); !dbg {
+				return true
+			}
+		}
+		return false
+	}
+	for _, ref := range *refs {
+		if ex, ok := ref.(*ssa.Extract); ok && ex.Index == res.Len()-1 {
+			if er := ex.Referrers(); er != nil {
+				for _, u := range *er {
+					if _, dbg := u.(*ssa.DebugRef); !dbg {
+						return true
+					}
+				}
+			}
+		}
+		if _, isRet := ref.(*ssa.Return); isRet {
+			return true // returned whole
+		}
+	}
+	return false
 }
